@@ -231,6 +231,10 @@ def _drift_class(sp, y, z, opts, vx):
     if not args:
         return ""
     try:
+        # the output is an exact instance of a plain-class argument: the documented exact-type pass-through must
+        # return it unchanged, whatever the other arguments would do with it
+        if any(a[0] == "t" and a[1] not in ("Any",) and type(y) is S._leaf_class(a[1]) for a in args):
+            return "@union-exact-instance-changed"
         prod = [i for i, a in enumerate(args) if S.conforms(a, y)]
         capt = [i for i, a in enumerate(args) if S.conforms(a, z)]
         if prod and capt and capt[0] < prod[0]:
